@@ -19,6 +19,9 @@ CLAIMED = {
  'C11': ('M', 'symbolic execution of the MIR of the Expr::Binary / Expr::Unary arms and of the variant dispatch of eval_expr_with_functions into Z3, in both build profiles (overflow-checks on and off); every MIR assert terminator, diverging call and modelled std panic is a solver obligation; termination obligation on the catch-all arm; native replay',
          'Solver-decided panic-freedom for every binary operator (24) and unary operator (3) on operands of EVERY value variant with fully symbolic i64/f64/bool payloads, in the dev and the release profile, plus: no expression variant makes the evaluator re-enter itself with the same expression (the stack-overflow defect).',
          'Trusted: MIR dump + executor; std string/collection comparisons and powi/powf assumed panic-free (opaque models). Recursive operand evaluations return any Some(Value). Outside: arms of Array/Map/Index/Slice/Range/Coalesce/Member/Call/If/Ident (std iterator and formatting code), built-in functions, user functions, range sizes.', 'DESIGN.md §4 C11'),
+ 'C30': ('M', 'symbolic execution of the MIR of the private TokenBucket (new, try_consume+refill, reset_after, remaining) into Z3 (IEEE-754 theory) from an arbitrary valid bucket state under a symbolic monotone clock; one inductive step per method; native replay through RateLimiter::check under an interposed virtual clock',
+         'Solver-decided one-step obligations for every burst 0..20, rate 0..50, every bucket state satisfying the invariant and every later instant: no panic, invariant 0<=tokens<=burst preserved, last_update=now, tokens\' = min(tokens+elapsed*rate, burst) minus one exactly when admitted, admitted iff a whole token is available; reset_after/remaining never panic and return a finite Duration (rate 0 included). The interval bound admitted <= burst + rate*T follows by the induction stated in props/c30.py.',
+         'Claimed for one client\'s bucket ("while that client is tracked"). Outside: the per-IP map, eviction and the async RateLimiter::check wrapper (tokio RwLock + std HashMap), interleaved clients. Trusted: MIR dump + executor, models of Instant/Duration (listed in evidence), Z3 FP theory; the multi-step bound is an induction over the discharged step obligations, up to one rounding per operation.', 'DESIGN.md §4 C30'),
 }
 
 NOT_APPLICABLE = {
